@@ -78,6 +78,12 @@ CHECKS = {
                      "axis and both), either SEG-Y reader: shape, trace count, axes, header-array length, file length, every voxel (C01 oracle relative "
                      "to the window) and every header field of a symbolic trace equal those of converting the windowed cube alone. Bounded model checking.",
                 design='DESIGN.md 7/C11'),
+    'C08': dict(text="Irregular SEG-Y route end to end (detect/infer geometry, trace placement by lookup, header write, reader mask and ordinal map): "
+                     "grids 3x4 and 6x3 with one or two holes at every admissible position (enumerated by the solver), independent unequal increments, "
+                     "zero / negative line numbers: inferred axes with their own increments, trace count, structured=False, trace i / header i = i-th "
+                     "source trace, tracefield grids with zeros at holes, and every volume voxel = ZFP cell of the zero-filled, zero-extended grid. "
+                     "Bounded model checking.",
+                design='DESIGN.md 7/C08'),
 }
 
 NOT_YET = "check not built yet in this session (work in progress; see DESIGN.md section 11 build order)"
